@@ -25,6 +25,10 @@ PROPS = {
                   variants=[v for v in core.ALL_VARIANTS if v.startswith("o0")], level="other",
                   explanation="Debug/Statistics/Memoize twins of every case are run on the real generated parser and compared; Lean theorems cover the memo-table discipline only (the full memo-soundness statement is false for the unchanged code, finding D7)"),
     "C07": dict(module="PigeonVerif.Properties.C07", run=mid_check.run_c07, level="other"),
+    "C08": h1prop("PigeonVerif.Properties.C08", P(["val", "pos", "errs", "stores", "trace_ctx", "trace_stores"]),
+                  [("lr", 12000, 400000)], twins=twins_c08, twin_rel=rel_c08, level="other",
+                  variants=[v for v in core.ALL_VARIANTS if v[5] == "1"],
+                  explanation="every generated left-recursive case is run on the real generated parser (all 8 LeftRecursion template variants, Memoize on/off) and on the Lean model (full result incl. values, errors, stores, block trace), and — for direct left recursion without predicates — on the plain parser of its iterative twin grammar, which must match the same prefix"),
     "C10": h1prop("PigeonVerif.Properties.C10", P(["val", "errs"]),
                   [("mixed", 6000, 200000), ("state", 2000, 50000), ("lr", 1500, 40000)],
                   twins=twins_c10, twin_rel=rel_c10),
